@@ -46,10 +46,21 @@ pub fn conf_of_json(j: &J) -> MessageConfig {
 /// Message::new -> byte_len -> as_bytes -> add_storage_header(Some(ts)) -> as_bytes -> dlt_message
 pub fn build_event(conf: &MessageConfig, secs: u32, us: u32) -> J { build_event_sh(conf, secs, us, None) }
 /// `sh0`: the storage header the message is constructed with (add_storage_header then replaces it)
+/// a copy of the configuration whose argument / slice vector has spare capacity (Clone gives an exact-capacity vector; a vector grown
+/// by push has not): the argument count is the length, never the capacity
+fn with_spare(conf: &MessageConfig) -> MessageConfig {
+    let mut c = conf.clone();
+    match &mut c.payload {
+        PayloadContent::Verbose(a) => a.reserve(5 + a.len() % 7),
+        PayloadContent::NetworkTrace(sl) => sl.reserve(5 + sl.len() % 7),
+        _ => {}
+    }
+    c
+}
 pub fn build_event_sh(conf: &MessageConfig, secs: u32, us: u32, sh0: Option<StorageHeader>) -> J {
     let sh0j = proj::opt(&sh0, proj::storage_header);
     let res = match catch_unwind(AssertUnwindSafe(|| {
-        let m = Message::new(conf.clone(), sh0.clone());
+        let m = Message::new(with_spare(conf), sh0.clone());
         let blen = m.byte_len();
         let bytes = { let mut plain = m.clone(); plain.storage_header = None; plain.as_bytes() };
         let m2 = m.clone().add_storage_header(Some(DltTimeStamp { seconds: secs, microseconds: us }));
@@ -135,7 +146,12 @@ fn random_conf(r: &mut Rng, i: usize) -> MessageConfig {
         ecu_id: m.header.ecu_id.clone(),
         session_id: m.header.session_id,
         timestamp: m.header.timestamp,
-        payload: m.payload.clone(),
+        // argument / slice vectors with spare capacity (a vector grown by push has one): the count is the length, not the capacity
+        payload: match &m.payload {
+            PayloadContent::Verbose(a) if i % 2 == 0 => { let mut v = Vec::with_capacity(a.len() + 1 + i % 9); v.extend(a.iter().cloned()); PayloadContent::Verbose(v) }
+            PayloadContent::NetworkTrace(sl) if i % 2 == 0 => { let mut v = Vec::with_capacity(sl.len() + 1 + i % 9); v.extend(sl.iter().cloned()); PayloadContent::NetworkTrace(v) }
+            p => p.clone(),
+        },
         extended_header_info: m.extended_header.as_ref().map(|x| ExtendedHeaderConfig { message_type: x.message_type.clone(), app_id: x.application_id.clone(), context_id: x.context_id.clone() }),
     };
     if i % 25 == 7 {
@@ -201,7 +217,7 @@ pub fn record(mode: &str, seed: u64, n: usize, out: &mut Out) {
                 let c = random_conf(&mut r, i);
                 out.calls += 3;
                 let res = match catch_unwind(AssertUnwindSafe(|| {
-                    let m = Message::new(c.clone(), None);
+                    let m = Message::new(with_spare(&c), None);
                     let b = m.as_bytes();
                     (proj::message(&m), b.clone(), slice::parse_res(&b, None, false, true))
                 })) {
@@ -231,7 +247,7 @@ pub fn record(mode: &str, seed: u64, n: usize, out: &mut Out) {
             for i in 0..n {
                 let c = random_conf(&mut r, i);
                 out.calls += 2;
-                let res = match catch_unwind(AssertUnwindSafe(|| Message::new(c.clone(), None).as_bytes())) {
+                let res = match catch_unwind(AssertUnwindSafe(|| Message::new(with_spare(&c), None).as_bytes())) {
                     Ok(b) => json!({"v": "ok", "bytes": proj::bytes(&b)}),
                     Err(_) => json!({"v": "panic"}),
                 };
